@@ -95,10 +95,19 @@ class _PooledTransport:
     """Transport wrapper that returns the subprocess to the pool on close.
 
     Implements the same duck-typed interface as :class:`RpcTransport` plus
-    pool-specific attributes (``shm``, ``_stream_opened``).
+    pool-specific attributes (``shm``, ``_stream_opened``, ``_call_in_flight``).
     """
 
-    __slots__ = ("_inner", "_last_stream_session", "_pool", "_returned", "_shm", "_stream_opened")
+    __slots__ = (
+        "_call_in_flight",
+        "_inner",
+        "_last_stream_session",
+        "_pool",
+        "_returned",
+        "_shm",
+        "_stream_abandoned",
+        "_stream_opened",
+    )
 
     def __init__(self, inner: SubprocessTransport, pool: WorkerPool, shm: ShmSegment | None = None) -> None:
         """Initialize wrapping *inner* transport, owned by *pool*."""
@@ -107,7 +116,9 @@ class _PooledTransport:
         self._returned = False
         self._shm = shm
         self._stream_opened = False
+        self._stream_abandoned = False
         self._last_stream_session: StreamSession | None = None
+        self._call_in_flight = False
 
     @property
     def reader(self) -> IOBase:
@@ -135,13 +146,15 @@ class _PooledTransport:
             return
         self._returned = True
         self._shm = None
-        # A stream is "abandoned" if it was opened but not cleanly closed
-        stream_abandoned = self._stream_opened and (
-            self._last_stream_session is None or not self._last_stream_session._closed
-        )
+        # A stream is "abandoned" if it (or an earlier one) was opened but not
+        # closed with its output read to end-of-stream; a unary call that was
+        # cut short leaves unread response bytes just the same.
+        last = self._last_stream_session
+        stream_abandoned = self._stream_abandoned or (self._stream_opened and (last is None or not last._settled))
+        dirty = stream_abandoned or self._call_in_flight
         self._last_stream_session = None
         try:
-            self._pool._return_worker(self._inner, stream_abandoned)
+            self._pool._return_worker(self._inner, dirty)
         except Exception:
             _logger.debug("Unexpected error returning worker to pool", exc_info=True)
             with contextlib.suppress(Exception):
@@ -406,9 +419,9 @@ class WorkerPool:
                 transport.close()
             return
 
-        # Abandoned stream — transport has stale data, must discard
+        # Abandoned stream or interrupted call — transport has stale data, must discard
         if stream_opened:
-            _logger.warning("Discarding worker with abandoned stream: pid=%d", transport.proc.pid)
+            _logger.warning("Discarding worker with abandoned stream or interrupted call: pid=%d", transport.proc.pid)
             with self._lock:
                 self._active -= 1
                 self._discards += 1
